@@ -256,9 +256,10 @@ package annotations
 // the oauth backend of a namespace is looked up over hosts in hostname order
 // (never over a Go map): the first matching path wins
 //@ func (*updater).findBackend#determined
-//@   props C06
+//@   props C06 C18 C09
 //@   no-map-range
 //@   lemma first: result != nil ==> exists i int, k int :: 0 <= i && i < len(hosts) && 0 <= k && k < len(hosts[i].Paths) && result == &hosts[i].Paths[k].Backend
+//@   lemma own-namespace: result != nil ==> result.Namespace == namespace
 //@   loop 1 invariant none: 0 <= $idx(1) && $idx(1) <= len(hosts)
 //@ end
 
@@ -283,10 +284,12 @@ package annotations
 // the global config), never a namespace taken from the annotation's own value:
 // the cross-namespace gate compares the secret's namespace against it
 //@ func (*updater).buildBackendProtocol
-//@   props C09
+//@   props C09 C01
 //@   assume-pre Mapper).Get
 //@   at call GetTLSSecretPath#1 assert reader-ns: $arg1 == (crt.Source != nil ? crt.Source.Namespace : "")
 //@   at call GetCASecretPath#1 assert reader-ns:  $arg1 == (ca.Source != nil ? ca.Source.Namespace : "")
+//@   at call GetTLSSecretPath#1 assert tracked: len($arg3) == 1 && $arg3[0].Context == convtypes.ResourceHABackend && $arg3[0].UniqueName == d.backend.ID
+//@   at call GetCASecretPath#1 assert tracked:  len($arg3) == 1 && $arg3[0].Context == convtypes.ResourceHABackend && $arg3[0].UniqueName == d.backend.ID
 //@ end
 
 // C11 — the slot settings reach the model from their own keys
